@@ -192,6 +192,34 @@ pub fn ctx_json(w: &World, cfg: &EvalCfg, opts: &Opts, extra: &Map<String, Value
     o.insert("exact".into(), json!(0));
     o.insert("edit".into(), json!("first"));
     o.insert("fam".into(), json!(""));
+    // every job id of the graph or of a history key, with its output names; and all of those
+    // strings in lexicographic order (TLA+ can neither split nor order strings)
+    let mut ids: BTreeSet<String> = w.g.kind.keys().cloned().collect();
+    for k in w.hist.keys() {
+        match k.split_once("!!!") {
+            Some((a, b)) => {
+                ids.insert(a.to_string());
+                if !b.is_empty() {
+                    ids.insert(b.to_string());
+                }
+            }
+            None => {
+                ids.insert(k.clone());
+            }
+        }
+    }
+    let mut sorted: BTreeSet<String> = ids.clone();
+    for i in ids.iter() {
+        for n in names_of(i) {
+            sorted.insert(n);
+        }
+    }
+    o.insert("ids".into(), json!(ids.iter().collect::<Vec<_>>()));
+    o.insert(
+        "idnames".into(),
+        Value::Object(ids.iter().map(|i| (i.clone(), json!(names_of(i)))).collect()),
+    );
+    o.insert("sorted".into(), json!(sorted.iter().collect::<Vec<_>>()));
     for (k, v) in extra {
         o.insert(k.clone(), v.clone());
     }
@@ -305,14 +333,18 @@ pub fn explore_ctx(
     links: &Links,
     stats: &mut Stats,
 ) -> CtxResult {
-    let ctx_line = wr.emit(&ctx_json(w, cfg, opts, extra));
+    // the evaluation is started first: the context line carries the iteration orders the engine
+    // really uses (hook snapshot after event_startup)
+    let (mut run, cls, msg) = Run::begin(w, cfg, opts.steps);
+    let mut extra2 = extra.clone();
+    extra2.insert("ord".into(), run.ord_json());
+    let ctx_line = wr.emit(&ctx_json(w, cfg, opts, &extra2));
     stats.ctxs += 1;
     let mut states: HashMap<String, usize> = HashMap::new();
     let mut ends: Vec<EndInfo> = vec![];
     let mut first_end: usize = 0;
 
     // initial state
-    let (mut run, cls, msg) = Run::begin(w, cfg, opts.steps);
     let mut st = run.state_json();
     let key = st.to_string();
     st.as_object_mut().unwrap().insert("ctx".into(), json!(ctx_line));
